@@ -73,9 +73,10 @@ _t("C18",
    "property-based testing with harness-owned scheduling (synctest)", "DESIGN.md §3 C18")
 
 _t("C15",
-   "Generated chain evolutions (extensions, reorgs up to depth 8, stale/repeated notifications, evolution while the wallet is stopped) are fed to a complete wallet through a "
+   "Generated chain evolutions (extensions, reorgs up to depth 8 with fork points at or above the wallet's birthday block, stale/repeated notifications, evolution while the wallet is "
+   "stopped, blocks found and progress reported while a startup rescan is in flight) are fed to a complete wallet through a "
    "model backend; after every quiesced step tip, per-height hashes, block membership of confirmed transactions and balances are compared with the backend model and an "
-   "independent coin ledger, again after reopening.",
+   "independent coin ledger, again after reopening. Open known finding F20 (fork point below the birthday block while stopped) is exercised by one fixed regression history and counted.",
    "Trusted: internal/simchain as a faithful (ideal) chain.Interface backend; the sentinel-based quiescence argument (sequential notification loop).",
    "property-based testing: rapid generated chain histories against a backend model, invariant + ledger oracle", "DESIGN.md §3 C15")
 
